@@ -151,7 +151,7 @@ class ConcreteEx:
         if owner is not None:
             had = attr in getattr(owner, "__dict__", {})
             self._attr_patches.append((owner, attr, had, owner.__dict__.get(attr) if had else None))
-            object.__setattr__(owner, attr, repl)
+            (type.__setattr__ if isinstance(owner, type) else object.__setattr__)(owner, attr, repl)
             return repl
         for mname, mod in list(sys.modules.items()):
             if mod is None or not (mname == "btclib" or mname.startswith("btclib.")):
@@ -165,11 +165,12 @@ class ConcreteEx:
 
     def unstub_all(self):
         for owner, attr, had, old in reversed(self._attr_patches):
+            is_cls = isinstance(owner, type)
             if had:
-                object.__setattr__(owner, attr, old)
+                (type.__setattr__ if is_cls else object.__setattr__)(owner, attr, old)
             else:
                 try:
-                    object.__delattr__(owner, attr)
+                    (type.__delattr__ if is_cls else object.__delattr__)(owner, attr)
                 except AttributeError:
                     pass
         self._attr_patches = []
